@@ -339,6 +339,8 @@ def gen_cfg(prop, tier, seed, i):
         cfg['compact_min'] = pick(r, [10 ** 9, 20])
         cfg['auto_unlock'] = pick(r, [2.0, 4.0, 8.0])
         cfg['n_locks'] = pick(r, [1, 2])
+        # blocking calls (sync=True) whose timeout expires before the reply, in two cases of three
+        cfg['sync_calls'] = random.Random(h32('c16sync', seed, i)).random() < 0.67
         cfg['batch'] = 65536
         cfg['chunk'] = 65536
         cfg['queue'] = 100000
